@@ -1,10 +1,158 @@
-(* C09 - stub, extended below in the development *)
+(* C09 - every final Alephium token-bridge message is eventually observed, exactly once by the polling path; a malformed
+   or foreign event never crashes, stalls or spins the watcher and never makes it drop other messages.
+
+   Same model as C08 (model.AlphWatcher).  The simulated node of the theorems: the governance contract's event stream is
+   an append-only list `log`; paging is well-behaved (wb_pages): every page request for index s is answered with a
+   segment log[s .. s+n) that exists, and n > 0 while s is below the count the node has already reported - whatever the
+   page size and wherever new events land between the count request and the page requests.  The exit test of the page
+   loop, the handling of an unconvertible event and the nil tests of GetTokenInfo come from gen.Extracted. *)
 From Coq Require Import List ZArith Bool Lia.
 From WH Require Import gen.Extracted model.AlphWatcher proofs.AlphWatcherProofs.
 Import ListNotations.
 Open Scope Z_scope.
 
-Theorem C09_confirmed_spec : forall mn m h now height, sane_hdr h (m_cl m) ->
-  confirmed mn m h now height = true <-> (h_height h + m_cl m <= height /\ h_ts h + hold mn m <= now).
-Proof. exact confirmed_spec. Qed.
-Print Assumptions C09_confirmed_spec.
+(* ONE POLL: it terminates within its fuel (no spin), delivers - in order - exactly the kept events of
+   stream[from .. from'), ends at or above the polled count, and issues at most max(1, count - from) <= count - from + 1
+   page requests.  keep_from judges every event on its own: to_unconfirmed + attestation validation. *)
+Theorem C09_one_poll : forall log pg tok count from, 0 <= from <= loglen log -> wb_pages log pg count ->
+  poll (Some count) pg tok from = PIdle /\ count = from \/
+  exists from' nreq, poll (Some count) pg tok from = PBatch from' (keep_from tok from (seg log from (Z.to_nat (from' - from)))) nreq
+    /\ count <= from' /\ from <= from' <= loglen log /\ (1 <= nreq)%nat /\ Z.of_nat nreq <= Z.max 1 (count - from)
+    /\ Z.of_nat nreq <= Z.max 0 (count - from) + 1.
+Proof. exact poll_wb. Qed.
+
+(* EVERY HISTORY of steps without node API error (polls with well-behaved paging, hand-overs, height ticks,
+   re-observations, interleaved arbitrarily): the watcher never terminates, no step reports Fatal / Spin / Panic, every
+   poll stays within its request bound and reaches its polled count (all_quiet), and the concatenation of all batches is
+   exactly the kept events of stream[from0 .. from_final), in order, each exactly once. *)
+Theorem C09_partition_all_histories : forall c log T ops from0, 0 <= from0 <= loglen log -> Forall (fine log T) ops ->
+  w_dead (final c (init from0) ops) = false /\ all_quiet c (init from0) ops /\
+  from0 <= w_from (final c (init from0) ops) <= loglen log /\
+  batches c (init from0) ops = keep_from T from0 (seg log from0 (Z.to_nat (w_from (final c (init from0) ops) - from0))).
+Proof.
+  intros c log T ops from0 Hf H. apply (partition_all_histories c log T ops (init from0)); auto. apply Inv_init.
+Qed.
+
+(* what is kept: a well-formed event that is not an attestation is kept whatever its sender (the sender filter is applied
+   after confirmation); an attestation iff the token contract's answer equals its payload; a malformed event contributes
+   nothing and changes nothing else in the batch *)
+Theorem C09_kept_plain : forall a e m, to_unconfirmed e = Some m -> is_attest m = false ->
+  keep1 a e = [ {| u_ev := e; u_msg := m; u_chain := None |} ].
+Proof. exact keep1_plain. Qed.
+
+Theorem C09_kept_attestation : forall a e m, to_unconfirmed e = Some m -> is_attest m = true ->
+  keep1 a e = match validate_attest m a with VaOk t => [ {| u_ev := e; u_msg := m; u_chain := Some t |} ] | _ => [] end.
+Proof. exact keep1_attest. Qed.
+
+Theorem C09_malformed_event_is_transparent : forall tok a e b idx, to_unconfirmed e = None ->
+  keep_from tok idx (a ++ e :: b) = keep_from tok idx a ++ keep_from tok (idx + Z.of_nat (length a) + 1) b.
+Proof. exact keep_from_malformed_transparent. Qed.
+
+Theorem C09_events_judged_independently : forall tok a e b idx,
+  keep_from tok idx (a ++ e :: b) =
+  keep_from tok idx a ++ keep1 (tok (idx + Z.of_nat (length a))) e ++ keep_from tok (idx + Z.of_nat (length a) + 1) b.
+Proof. exact keep_from_one_event. Qed.
+
+(* the control flow of a poll (outcome, fromIndex afterwards, number of page requests) depends only on the nextStart values
+   the node reports - not on the contents of any event, nor on what the node says about the contracts they name *)
+Theorem C09_poll_control_flow_ignores_event_contents : forall pg1 pg2 tok1 tok2 cn from,
+  (forall k s, pnext (pg1 k s) = pnext (pg2 k s)) -> pshape (poll cn pg1 tok1 from) = pshape (poll cn pg2 tok2 from).
+Proof. exact poll_shape_independent_of_contents. Qed.
+
+(* for ANY node behaviour: a poll reports an error only after a node API error, and never panics *)
+Theorem C09_poll_fails_only_on_api_error : forall cn pg tok from,
+  match poll cn pg tok from with
+  | PFatal => cn = None \/ exists k s, pg k s = PageErr
+  | PPanic => False
+  | _ => True
+  end.
+Proof. exact poll_fatal_only_by_api_error. Qed.
+
+(* GetTokenInfo cannot dereference nil, whatever the multicall returns (each result is nil-tested itself) *)
+Theorem C09_token_info_never_panics : forall id a, get_token_info id a <> TiPanic.
+Proof. exact get_token_info_no_panic. Qed.
+
+(* re-observation requests never terminate the watcher either *)
+Theorem C09_reobservation_never_fails : forall c r, snd (reobserve c r) = FNone.
+Proof. exact reobserve_flag. Qed.
+
+(* PENDING EVENTS: an event pending in a block whose header is H blk is forwarded at the first height tick at which it is
+   confirmed and its block is reported main-chain - whatever happened in between (other batches, foreign or orphaned
+   events being dropped, ticks at which it was not yet confirmed, re-observations), provided the watcher was not
+   terminated by a node API error.  (H = the headers of the blocks; the node's header answers are consistent with it.) *)
+Theorem C09_pending_event_forwarded_when_final : forall c H pre s height now mc hd blk u,
+  InvH H s -> Forall (okH H) pre -> okH H (OTick height now mc hd) ->
+  w_dead (fst (step c (final c s pre) (OTick height now mc hd))) = false ->
+  pending_in (w_pending s) blk u -> m_sender (u_msg u) = c_bridge c ->
+  (forall h' n' mc' hd', In (OTick h' n' mc' hd') pre -> confirmed (c_mainnet c) (u_msg u) (H blk) n' h' = false) ->
+  confirmed (c_mainnet c) (u_msg u) (H blk) now height = true -> mc blk = Some true ->
+  In (mkfwd u (H blk)) (o_fwd (snd (step c (final c s pre) (OTick height now mc hd)))).
+Proof. exact pending_forwarded_when_final. Qed.
+
+(* ... and a delivered batch does become pending: hand-over keeps everything that was pending *)
+Theorem C09_delivery_keeps_pending : forall l P blk u, pending_in P blk u -> pending_in (add_batch P l) blk u.
+Proof. exact add_batch_keeps. Qed.
+
+(* exactly once: not more often than fetched (for every predicate p on events) *)
+Theorem C09_forwarded_at_most_once : forall c p ops from0,
+  (cnt p (tick_fwds c (init from0) ops) + cnt p (held (final c (init from0) ops)) <= cnt p (batches c (init from0) ops))%nat.
+Proof. intros c p ops from0. pose proof (forwarded_at_most_fetched c p ops (init from0)) as H. cbn in H. exact H. Qed.
+
+(* the height poller stays enabled as long as events are pending (so height ticks keep coming) *)
+Theorem C09_poller_enabled_while_pending : forall c ops from0,
+  w_pending (final c (init from0) ops) <> [] -> w_enabled (final c (init from0) ops) = true.
+Proof. exact poller_enabled_while_pending. Qed.
+
+(* ------------------------------------------------------------------ the hypotheses are satisfiable: a concrete history *)
+Definition ex_c : cfg := {| c_gov := 10; c_bridge := 77; c_mainnet := false |}.
+Definition ex_good (uid cl : Z) : cevent :=
+  {| e_uid := uid; e_block := 5; e_index := 0; e_conv := Some {| m_sender := 77; m_cl := cl; m_p0 := 1; m_tok := None |} |}.
+Definition ex_bad (uid : Z) : cevent := {| e_uid := uid; e_block := 5; e_index := 0; e_conv := None |}.   (* e.g. level 256 *)
+Definition ex_att (uid : Z) : cevent :=     (* attestation-shaped event of a foreign sender naming a contract whose second call fails *)
+  {| e_uid := uid; e_block := 6; e_index := 0;
+     e_conv := Some {| m_sender := 5; m_cl := 0; m_p0 := 2; m_tok := Some {| ti_id := 900; ti_dec := 8; ti_sym := 3; ti_name := 4 |} |} |}.
+Definition ex_log : list cevent := [ex_good 1 1; ex_bad 2; ex_att 3; ex_good 4 2; ex_good 5 0].
+Definition ex_T : Z -> mc_ans := fun _ => McRes [COk [VBytes (Some 3)]; CFailed; COk [VNum (Some 8)]].
+(* page size 2 *)
+Definition ex_n (s : Z) : nat := Z.to_nat (Z.min 2 (5 - s)).
+Definition ex_pg : nat -> Z -> page_ans := fun _ s => Page (seg ex_log s (ex_n s)) (s + Z.of_nat (ex_n s)).
+Definition ex_hd : Z -> option header := fun _ => Some {| h_ts := 1000; h_height := 100 |}.
+(* the count is polled as 2, three more events land before the second page request *)
+Definition ex_ops : list op :=
+  [ OPoll (Some 2) ex_pg ex_T; OPoll (Some 5) ex_pg ex_T; ODeliver; OPoll (Some 5) ex_pg ex_T; ODeliver;
+    OTick 101 100000 (fun _ => Some true) ex_hd; OTick 102 100000 (fun _ => Some true) ex_hd ].
+
+Lemma ex_wb : forall count, count <= 5 -> wb_pages ex_log ex_pg count.
+Proof.
+  intros count Hc k s Hs. change (loglen ex_log) with 5 in Hs. exists (ex_n s). unfold ex_pg, ex_n. change (loglen ex_log) with 5.
+  repeat apply conj; [reflexivity|lia|lia].
+Qed.
+
+(* the history is error-free; the two polls fetch [1] and [4;5] (2 malformed and 3 invalid are skipped, nothing is
+   lost), with 1 and 2 page requests; event 1 and 5 are forwarded at height 101, event 4 (level 2) at height 102 *)
+Example C09_hypotheses_satisfiable :
+  Forall (fine ex_log ex_T) ex_ops /\
+  map (fun x => (map (fun u => e_uid (u_ev u)) (o_batch x), o_nreq x, map (fun f => e_uid (f_ev f)) (o_fwd x))) (fst (run ex_c (init 0) ex_ops))
+  = [([1], 1%nat, []); ([], 0%nat, []); ([], 0%nat, []); ([4; 5], 2%nat, []); ([], 0%nat, []); ([], 0%nat, [1; 5]); ([], 0%nat, [4])].
+Proof.
+  split; [|vm_compute; reflexivity].
+  assert (P : forall count, count <= 5 -> fine ex_log ex_T (OPoll (Some count) ex_pg ex_T)).
+  { intros count Hc. exists count. repeat apply conj; [reflexivity|apply ex_wb; exact Hc|reflexivity]. }
+  assert (Tk : forall h n, fine ex_log ex_T (OTick h n (fun _ => Some true) ex_hd)) by (intros h n; split; intros b; discriminate).
+  unfold ex_ops. repeat apply Forall_cons; try apply Forall_nil; try exact I; try apply Tk; apply P; lia.
+Qed.
+
+Print Assumptions C09_one_poll.
+Print Assumptions C09_partition_all_histories.
+Print Assumptions C09_kept_plain.
+Print Assumptions C09_kept_attestation.
+Print Assumptions C09_malformed_event_is_transparent.
+Print Assumptions C09_events_judged_independently.
+Print Assumptions C09_poll_control_flow_ignores_event_contents.
+Print Assumptions C09_poll_fails_only_on_api_error.
+Print Assumptions C09_token_info_never_panics.
+Print Assumptions C09_reobservation_never_fails.
+Print Assumptions C09_pending_event_forwarded_when_final.
+Print Assumptions C09_delivery_keeps_pending.
+Print Assumptions C09_forwarded_at_most_once.
+Print Assumptions C09_poller_enabled_while_pending.
